@@ -1,5 +1,6 @@
 """Backtest sessions: generators, model encoding, comparison (shared by C07, C08, C14, C16, C18, C19)."""
 from fractions import Fraction
+from .holidays import HOLIDAYS, HOLIDAY_MONTH_ENDS
 import datetime
 import math
 
@@ -54,26 +55,40 @@ def gen_prices(rng, assets, times, exact, data_start=None):
 
 
 def gen_session(rng, tier='quick', exact=None, alpha_kinds=('fixed', 'single', 'topn', 'smatrend'), fixed_only=False,
-                all_quoted=True, allow_dynamic=True, max_days=None):
+                all_quoted=True, allow_dynamic=True, max_days=None, outside_universe=False):
     exact = (rng.random() < 0.7) if exact is None else exact
     nd = rng.randint(3, max_days or (45 if tier == 'quick' else 260))
     d0 = BASE + rng.randint(0, 300)
     rebal = rng.choice([['weekly', rng.choice(WD)], ['weekly', rng.choice(WD).lower()], ['daily'], ['eom'], ['bah']])
+    if rng.random() < 0.12:
+        # aim the range at a US federal holiday on a weekday (the engine knows none: pure Monday-Friday arithmetic)
+        if rebal[0] == 'eom':
+            d0 = rng.choice(HOLIDAY_MONTH_ENDS) - rng.randint(1, 25)
+        elif rebal[0] == 'bah':
+            h = rng.choice([x for x in HOLIDAYS if weekday(x) == 0])
+            d0 = h - rng.choice([0, 1, 2])
+        else:
+            d0 = rng.choice(HOLIDAYS) - rng.randint(0, min(nd, 8))
     tod0 = OPEN if (rebal[0] == 'bah' and rng.random() < 0.85) else rng.choice([0, 0, OPEN, 3600 * 9])
     start = d0 * DAY + tod0
     end = (d0 + nd) * DAY + 86340
     if rebal[0] == 'eom':
         end = (d0 + nd + rng.randint(20, 70)) * DAY + 86340
-    n_assets = rng.randint(1, 4)
+    n_assets = rng.randint(2, 4) if outside_universe else rng.randint(1, 4)
     assets = ASSETS[:n_assets]
     long_only = rng.random() < 0.5
-    kind = 'fixed' if fixed_only else rng.choice(alpha_kinds)
+    kind = 'fixed' if (fixed_only or outside_universe) else rng.choice(alpha_kinds)
+    if outside_universe and rebal[0] in ('eom', 'bah'):
+        rebal = ['daily']
     evs = event_times(start, end)
     times = [t for t, _ in evs]
     closes = [t for t, k in evs if k == 'market_close']
     # universe
     if kind in ('fixed',) or not allow_dynamic or rng.random() < 0.45:
         universe = ['static', list(assets)]
+        if kind == 'fixed' and len(assets) > 1 and (outside_universe or rng.random() < 0.25):
+            # the fixed weights also cover assets that the universe does not list
+            universe = ['static', rng.sample(list(assets), rng.randint(1, len(assets) - 1))]
         entry = dict((a, None) for a in assets)
     else:
         ents = []
@@ -92,11 +107,13 @@ def gen_session(rng, tier='quick', exact=None, alpha_kinds=('fixed', 'single', '
             else:
                 e = None
             ents.append([a, e])
-        universe = ['dynamic', ents] + (['nat'] if rng.random() < 0.3 else [])     # missing entries as None or as NaT
+        universe = ['dynamic', ents] + ([rng.choice(['nat', 'tz', 'nat+tz'])] if rng.random() < 0.45 else [])     # missing entries as None or as NaT
     # alpha
     lookbacks = None
     if kind == 'fixed':
-        keys = rng.sample(assets, rng.randint(1, len(assets))) if rng.random() < 0.8 else list(assets)
+        keys = rng.sample(assets, rng.randint(1, len(assets))) if (rng.random() < 0.8 and not outside_universe) else list(assets)
+        if outside_universe:
+            rng.shuffle(keys)
         if long_only:
             ws = [rng.choice([0.25, 0.5, 1.0, 0.125, 0.0]) if exact else rng.choice([rng.random(), 0.0, 0.6, 0.4]) for _ in keys]
         else:
